@@ -267,8 +267,19 @@ func RunC12(st *simcore.Stream, tier, leg string, logOn bool, res *simcore.Resul
 	}
 	if !w.Finished {
 		res.Checks++
-		if closing > 0 {
+		runnable := false
+		for _, ti := range w.Sim.Tasks() {
+			if !ti.Done && ti.Parked && !ti.Cond && !ti.WantsLk {
+				// a task that only waits to be scheduled: the run was cut by a cap, it is not stuck
+				runnable = true
+			}
+		}
+		if closing > 0 && runnable {
+			res.Probe("cut-by-cap-during-close")
+		}
+		if closing > 0 && !runnable {
 			// the run ended at the simulated-time cap (hours) with a Close call still in progress
+			// and nothing that could still run
 			var stuck []string
 			for _, ti := range w.Sim.Tasks() {
 				if !ti.Done && (ti.Blocked || ti.Parked) && !strings.HasPrefix(ti.Site, "harness/") {
